@@ -148,6 +148,19 @@ CHECKS["C18"] = dict(
          "'the values govern the run' is carried by C19 (dt, T, S), C11 (l_min) and C04 whose traces depend on those parameters.",
     technique="TLA+ schema spec (Params) enumerated by TLC + TLC validation (ParamsTrace) of real parameter_reader results on every enumerated case")
 
+CHECKS["C17"] = dict(
+    category="fault_enumeration", design_ref="DESIGN.md §C17",
+    text="Fault enumeration driven by the format specifications: spec/Io/VtkFaults enumerates structured edits of Write(pop) (declared counts off by one, "
+         "dropped points/rows, node ids out of range or huge, wrong cell type code, type ids beyond the defined types, non-triangular faces) and TLC checks that "
+         "every such edit breaks the format's consistency predicate (verdict: must be diagnosed); spec/Io/Params (Params_c17) enumerates empty / non-numeric / "
+         "overflowing values for every XML tag with the schema's verdict. Plus seeded token- and byte-level faults of both files (delete, duplicate, replace by "
+         "negative/huge/non-numeric/empty/NaN text, section removal and reordering, unclosed elements, truncation at many offsets), also with the initial "
+         "triangulation enabled. Every mutant runs through the real start-up path in a child process with CPU/memory/time limits; outcome must be 'completed' or "
+         "'std::exception', and an exception where the verdict is 'reject'.",
+    note="Level is fault enumeration over these operators; arbitrary byte strings (coverage-guided fuzzing) are not generated; memory errors that do not crash "
+         "the child are invisible here. One known finding (coordinate outlier with initial triangulation) is listed in known_findings.json.",
+    technique="TLC-enumerated structured faults from the TLA+ format specs (VtkFaults, Params) + seeded token/byte faults, executed against the real start-up path in sandboxed child processes")
+
 PENDING = {}   # property id -> reason (filled below for everything not in CHECKS)
 NOT_APPLICABLE = {
  "C10": "memory safety / undefined behaviour has no representation in a TLA+ state (no addresses, lifetimes or indeterminate values); "
